@@ -567,8 +567,10 @@ def minimize_lbfgsb(
                 # Reboot BFGS-Hessian
                 mats = LBFGSB_MATRICES(n)
         else:
-            # x update
-            x += steplength * d
+            # x update: rounding may push x + steplength * d one ulp outside the box,
+            # project it back (same expression as the trial points of the line search
+            # so that the memoized f and g are reused).
+            np.clip(x + steplength * d, lb, ub, out=x)
 
             # new evaluation -> normally, the function has been updated in
             # the linesearch step
